@@ -76,8 +76,17 @@ def solve_parallel(vcs, timeout_ms, nproc=NPROC, stop_on_first=False):
                                       reason='solver process died', idx=i)
                 done.append(i)
             elif not p.is_alive():
-                results[i] = dict(name=vcs[i].name, kind=vcs[i].kind, verdict='error', backend='-', time_s=time.time() - t0, model=None,
-                                  reason=f'solver process exited with {p.exitcode}', idx=i)
+                # the child may have written its answer just before exiting: look once more before calling it dead
+                if pr.poll(0.5):
+                    try:
+                        results[i] = pr.recv()
+                    except EOFError:
+                        results[i] = None
+                else:
+                    results[i] = None
+                if results[i] is None:
+                    results[i] = dict(name=vcs[i].name, kind=vcs[i].kind, verdict='unknown', backend='-', time_s=time.time() - t0, model=None,
+                                      reason=f'solver process exited with {p.exitcode} without an answer', idx=i)
                 done.append(i)
             elif time.time() - t0 > hard:
                 p.kill()
